@@ -33,20 +33,22 @@ import (
 )
 
 type pSuite struct {
-	w       *World
-	r       *Rng
-	t       *Trace
-	gov     string
-	stat    map[string]int
-	coins   []string         // denominations with supply that can be registered
-	tokens  []common.Address // deployed, not yet registered ERC-20 contracts
-	regd    []string         // registered tokens (denominations / hex addresses)
-	world   int
+	w      *World
+	r      *Rng
+	t      *Trace
+	gov    string
+	stat   map[string]int
+	coins  []string         // denominations with supply that can be registered
+	tokens []common.Address // deployed, not yet registered ERC-20 contracts
+	regd   []string         // registered tokens (denominations / hex addresses)
+	world  int
 }
 
 var one18 = sdkmath.NewIntWithDecimal(1, 18)
 
-func decOf(i sdkmath.Int) sdkmath.LegacyDec { return sdkmath.LegacyNewDecFromBigIntWithPrec(i.BigInt(), 18) }
+func decOf(i sdkmath.Int) sdkmath.LegacyDec {
+	return sdkmath.LegacyNewDecFromBigIntWithPrec(i.BigInt(), 18)
+}
 
 // ---------- state rendering ----------
 
@@ -97,7 +99,9 @@ func (s *pSuite) otherState(ctx sdk.Context) string {
 	return fmt.Sprintf("pairs=%d port=%s dg=%s dgx=%s", len(a.Erc20Keeper.GetTokenPairs(ctx)), b01(port), s.w.storeDigest(ctx), s.w.storeDigest(ctx, paramstypes.StoreKey))
 }
 
-func (s *pSuite) fullState(ctx sdk.Context) string { return s.paramState(ctx) + " " + s.otherState(ctx) }
+func (s *pSuite) fullState(ctx sdk.Context) string {
+	return s.paramState(ctx) + " " + s.otherState(ctx)
+}
 
 func (s *pSuite) sync() { s.t.Line("S " + s.fullState(s.w.Ctx)) }
 
